@@ -7,7 +7,7 @@
    every namespace entry of every table names a module file. *)
 From Coq Require Import String List NArith ZArith Bool Lia Arith.
 From Sylt Require Import Syntax.Resolved Resolve.PAst Resolve.Resolver Resolve.Wf Resolve.TreeOk
-     Resolve.Modules Resolve.ModulesProofs Resolve.ImportProofs Resolve.AlphaProofs.
+     Resolve.Modules Resolve.ModulesProofs Resolve.ImportProofs Resolve.AlphaProofs Resolve.ImportFix.
 Import ListNotations.
 Local Open Scope list_scope.
 
@@ -569,6 +569,37 @@ Proof.
   apply tot_bind; [apply H; left; reflexivity|]. intros _. apply IH. intros z Hz. apply H. right. exact Hz.
 Qed.
 
+(* the import pass repeated to a fixpoint: the quiet rounds keep the invariant, never fail, and the number of
+   rounds granted is enough (ImportFix.import_rounds_total) *)
+Lemma tot_try m : tot m -> tot (try_ m).
+Proof. intros H st HI. specialize (H st HI). unfold try_. destruct (m st) as [[u s]| | |]; auto. Qed.
+
+Lemma quiet_round_tot : tot (quiet_round ast).
+Proof.
+  apply tot_for_each. intros m Hm. apply tot_for_each. intros s _.
+  assert (Hf : In (m_file m) files) by (apply in_map; exact Hm).
+  destruct s; try apply tot_ret.
+  - apply tot_try, rgv_tot, Hf.
+  - apply tot_for_each. intros it _. apply tot_try, from_imports_tot, Hf.
+Qed.
+
+Lemma import_rounds_inv n : forall st u st', Inv st -> import_rounds n ast st = Ok (u, st') -> Inv st'.
+Proof.
+  induction n as [|n IH]; intros st u st' HI H; [discriminate|]. cbn [import_rounds] in H.
+  pose proof (quiet_round_tot st HI) as Hq. destruct (quiet_round ast st) as [[u1 s1]| | |]; try discriminate.
+  cbn in Hq. destruct (Nat.eqb (names_count s1) (names_count st)); [inversion H; subst; exact Hq|eapply IH; eauto].
+Qed.
+
+Lemma import_pass_tot b : tot (import_pass b ast).
+Proof.
+  unfold import_pass. apply tot_bind.
+  - destruct b; [|apply tot_ret]. intros st HI.
+    destruct (import_rounds_total ast st) as (st' & E).
+    { intros m Hm. apply (i_dom _ HI). apply in_map. exact Hm. }
+    rewrite E. cbn. eapply import_rounds_inv; eauto.
+  - intros _. apply tot_for_each. intros m Hm. apply rgv_tot. apply in_map. exact Hm.
+Qed.
+
 (* resolve_total *)
 Theorem resolve_total fuel :
   tree_ok ast = true -> fuel_of ast <= fuel ->
@@ -588,7 +619,7 @@ Proof.
     destruct (for_each insert_namespace_and_add_definitions ast (init_state ast)) as [[[] s1]| | |];
       try contradiction; [|exact H1].
     apply P1_Inv in H1. revert s1 H1.
-    fold (tot (_ <- for_each (fun m => resolve_global_variables (m_file m) (m_stmts m)) ast ;;
+    fold (tot (_ <- import_pass (imports_fixpoint fl) ast ;;
                out <- block_with (stmt_r fl fuel) (flat_map m_stmts ast) ;;
                start <- lift (fun st => lookup_global st 0 "start") ;;
                match start with
@@ -596,7 +627,7 @@ Proof.
                | Some _ => ret out
                end)).
     apply tot_bind.
-    { apply tot_for_each. intros m Hm. apply rgv_tot. apply in_map. exact Hm. }
+    { apply import_pass_tot. }
     intros _. apply tot_bind.
     { apply tot_block. intros s Hs. apply in_flat_map in Hs as (m & Hm & Hs).
       apply (proj2 (proj2 (t_all fuel))).
@@ -624,4 +655,4 @@ Definition bad_tree : past :=
 Example total_example : forall fl,
   tree_ok w_nsfield_ok = true /\ tree_ok w_if = true /\ tree_ok bad_tree = false
   /\ (exists s, resolve fl bad_tree = Panic s).
-Proof. intros [[] [] [] []]; (split; [|split; [|split]]); try (vm_compute; reflexivity); eexists; vm_compute; reflexivity. Qed.
+Proof. intros [[] [] [] [] []]; (split; [|split; [|split]]); try (vm_compute; reflexivity); eexists; vm_compute; reflexivity. Qed.
